@@ -197,7 +197,7 @@ def judge(chk: Check, cases: T.List[T.Dict[str, T.Any]], label: str, surface: st
     by_id = {c['id']: c for c in cases}
     if len(by_id) != len(cases):
         raise MachineryError('duplicate case ids in batch ' + label)
-    for part_no, part in enumerate(common.chunks(cases, 30000)):
+    for part_no, part in enumerate(common.chunks(cases, 1000 if cases[0]['fam'] == 'api' else 30000)):
         with scratch('c07-') as d:
             tf = d / 'cases.json'
             if part[0]['fam'] == 'api':
@@ -562,16 +562,26 @@ def api_trace(j: int, seed: int) -> T.Dict[str, T.Any]:
     def okey(n: str, s: str) -> T.Any:
         return OK(n, None if s == '~' else s)
 
+    last: T.Dict[T.Tuple[str, str], T.Any] = {}
+
     def observe() -> T.List[T.Dict[str, T.Any]]:
+        """every watched key is read after every call; only the values that differ from the previous reading are
+        written to the trace (the judge requires all other watched keys to be unchanged in the machine as well)"""
         out = []
         for n, s in watch:
-            out.append({'k': K(n, s), 'v': project_value(store.get_value_for(okey(n, s)))})
+            try:
+                v = project_value(store.get_value_for(okey(n, s)))
+            except Exception as e:      # an option the model has but the store lost: reported through the judge
+                v = {'t': 'missing:' + type(e).__name__, 'n': 0, 'w': []}
+            if last.get((n, s)) != v:
+                out.append({'k': K(n, s), 'v': v})
+                last[(n, s)] = v
         return out
 
     def event(op: str, call: T.Callable[[], T.Any], **kw: T.Any) -> bool:
         nonlocal alien
         ev = {'op': op, 'k': K('', '', 'h'), 'd': API_KINDS['string'], 'def': R('none'), 'yield': False,
-              'lv': [[] for _ in range(8)], 'D': [], 'r': R('none'), 'raised': False, 'obs': []}
+              'lv': [[] for _ in range(8)], 'D': [], 'r': R('none'), 'raised': False, 'obs': [], 'nw': 0}
         ev.update(kw)
         try:
             call()
@@ -581,7 +591,9 @@ def api_trace(j: int, seed: int) -> T.Dict[str, T.Any]:
             alien = f'{op}: {type(e).__name__}: {str(e)[:150]}'
             ev['raised'] = True
         # a rejected initialisation aborts the configuration; the half-initialised store is never used again
-        ev['obs'] = [] if ev['raised'] and op in ('init_top', 'init_sub') else observe()
+        if not (ev['raised'] and op in ('init_top', 'init_sub')):
+            ev['obs'] = observe()
+            ev['nw'] = len(watch)
         events.append(ev)
         return not ev['raised']
 
@@ -690,10 +702,13 @@ def api_trace(j: int, seed: int) -> T.Dict[str, T.Any]:
                     r = rand_valid(d, rnd, text_only)
                     if n != 'buildtype':
                         return r
-                    cur = store.get_value_for(okey(n, s))
+                    try:
+                        cur = store.get_value_for(okey(n, s))
+                    except Exception:
+                        cur = None
                     if r['w'][0] != cur and r['w'][0] != 'custom':       # re-setting the current buildtype: not generated
                         return r
-                return R('str', 0, ['plain' if store.get_value_for(okey(n, s)) != 'plain' else 'release'])
+                return R('str', 0, ['plain' if cur != 'plain' else 'release'])
 
             what = rnd.random()
             if what < 0.35:
@@ -730,7 +745,8 @@ def api_trace(j: int, seed: int) -> T.Dict[str, T.Any]:
                 n, s = rnd.choice(cands)
                 D = [{'k': K(n, s), 'r': R('none')}]
                 event('configure', lambda: store.set_from_configure_command({okey(n, s): None}), D=D)
-    return {'id': f'api/{j}', 'fam': 'api', 'cross': cross, 'latent': latent, 'ev': events, 'alien': alien}
+    return {'id': f'api/{j}', 'fam': 'api', 'cross': cross, 'latent': latent, 'ev': events, 'alien': alien,
+            'watch': [K(n, s) for n, s in watch]}
 
 
 def rand_invalid_text(d: T.Dict[str, T.Any], rnd: random.Random) -> T.Dict[str, T.Any]:
